@@ -140,6 +140,15 @@ class VMap(V):
         s.name = name
 
 
+class VDict(V):
+    """mutable dict over leaf keys / leaf values: membership array key -> Bool and value array key -> value (store supported)"""
+    def __init__(s, has, val, kshape, vshape):
+        s.has = has
+        s.val = val
+        s.kshape = kshape
+        s.vshape = vshape
+
+
 class VFunc(V):
     """a name that is not bound in the environment (module, function, class)"""
     def __init__(s, name):
@@ -207,6 +216,8 @@ def fresh_val(name, shape):
         return VMap(fresh_val(f"keys({name})", ("seq", shape[1])), shape[1], shape[2], f"{name}!{next(_cnt)}")
     if shape[0] == "set":
         return VSet(fresh(f"{name}{{}}", z3.ArraySort(LEAF_SORT[shape[1]], B)), shape[1])
+    if shape[0] == "dict":
+        return VDict(fresh(f"{name}.has", z3.ArraySort(LEAF_SORT[shape[1]], B)), fresh(f"{name}.val", z3.ArraySort(LEAF_SORT[shape[1]], LEAF_SORT[shape[2]])), shape[1], shape[2])
     raise NotImplementedError(f"fresh {shape}")
 
 
@@ -318,6 +329,8 @@ def shape_of(v):
         return ("set", v.shape)
     if isinstance(v, VMap):
         return ("map", v.kshape, v.vshape)
+    if isinstance(v, VDict):
+        return ("dict", v.kshape, v.vshape)
     raise NotImplementedError(type(v))
 
 
